@@ -158,6 +158,7 @@ def main(tier, seed):
     rng = random.Random(seed)
     tmp = tempfile.mkdtemp(prefix='giv07')
     docs = []
+    stable_docs = []
     try:
         try:
             for what, xml, incs in c15.scanner_girs(rng, 3 if tier == 'quick' else 30):
@@ -228,6 +229,32 @@ def main(tier, seed):
                                      dict(document=what, gir=cur if len(cur) < 200000 else '<shipped file>'), detail=first_diff(cur, nxt))
                     break
                 cur = nxt
+            else:
+                stable_docs.append((what, cur))
+        # files read one after the other by ONE reader object (GIRParser.parse is public and may be called again): each must be
+        # written back as a fresh reader writes it - nothing of an earlier file may stay behind in the reader
+        from giscanner.girparser import GIRParser
+        from giscanner.girwriter import GIRWriter
+        seq = [d for d in stable_docs if len(d[1]) < 400000]
+        rng.shuffle(seq)
+        seq = seq[:12 if tier == 'quick' else 60]
+        reader = GIRParser()
+        prev = None
+        for k, (what, xml) in enumerate(seq):
+            pk = os.path.join(tmp, 'seq%d.gir' % k)
+            open(pk, 'w', encoding='utf-8').write(xml)
+            ck.count_case(dict(sequence=[w for w, _ in seq[:k + 1]]), nontrivial=True, kind='one-reader-sequence')
+            try:
+                reader.parse(pk)
+                again = GIRWriter(reader.get_namespace()).get_encoded_xml().decode('utf-8')
+            except BaseException as e:      # noqa
+                ck.failing_input('the GIR reader or writer raises %s on the %d. file read by one reader' % (type(e).__name__, k + 1),
+                                 dict(read_before=[w for w, _ in seq[:k]], document=what), detail=repr(e))
+                break
+            if again != xml:
+                ck.failing_input('a GIR read by a reader that has read other files before is not written back unchanged',
+                                 dict(read_before=[w for w, _ in seq[:k]], document=what, gir=xml[:60000]), detail=first_diff(xml, again))
+                break
         # the hand-written GIR files of gir/: their layout is not the writer's, so the first write normalises it; what the
         # namespace element says must survive, and the file the writer produced must then cycle to itself
         for f in sorted(glob.glob(os.path.join(REPO, 'gir', '*.gir'))):
